@@ -6,9 +6,32 @@ import subprocess
 ROOT = os.path.dirname(os.path.dirname(os.path.abspath(__file__)))
 
 SPECS = {
+    "C04": {
+        "corr": ["Proto"],
+        "engines": [
+            {"name": "hist", "tag": "c04", "extra": "prop=C04", "n": {"quick": 500, "thorough": 6000}},
+        ],
+        "explanation": "Theorems about the protocol model (Proto/Server.v = packs.PushPull over the memory DB; Proto/System.v = honest clients): log density, per-actor order, exactly-once/no-echo delivery and bounded checkpoints for every number of clients, every edit sequence and every interleaving of syncs, push-only syncs and lost responses. The model replays every request/response recorded from the real server (model response must equal the real one, final log rows must agree); the delivery and density oracles are also evaluated directly on the implementation's traffic and log.",
+        "assumptions": [
+            "sequential request granularity: one PushPull at a time per document (true interleavings of the phases of concurrent requests are the C16/C04-sched engine); memory DB only, MongoDB not executed",
+            "delivery theorem is for clients whose change stream was not replaced by a snapshot and for one attachment session per client (re-attachment is covered by the correspondence and the oracle, not by the theorem)",
+        ],
+    },
+    "C05": {
+        "corr": ["Proto"],
+        "engines": [
+            {"name": "hist", "tag": "c05", "extra": "prop=C05", "n": {"quick": 500, "thorough": 6000}},
+        ],
+        "explanation": "Theorems: in every reachable state (lost responses and retries included) an honest client's sync is accepted and acknowledges all pending changes; (actor, clientSeq) rows are never duplicated; delivery stays exactly-once. Tied by replaying recorded traffic (including retried identical requests) through the model; oracles on the implementation: no duplicate (actor, clientSeq) row, convergence, retried request accepted.",
+        "assumptions": [
+            "faults placed inside a request (between storage calls) are not yet part of this check; response loss and retry are",
+        ],
+    },
     "C06": {
+        "corr": ["C06", "Proto"],
         "engines": [
             {"name": "c06", "n": {"quick": 600, "thorough": 6000}},
+            {"name": "hist", "tag": "c06", "extra": "prop=C06", "n": {"quick": 400, "thorough": 5000}},
         ],
         "explanation": "Theorems about the clock model (Clock/ChangeID.v, Base/VV.v); model tied to pkg/document/change/id.go, change/context.go and time/version_vector.go by running both on the same random event sequences.",
         "assumptions": [
